@@ -77,6 +77,17 @@ def Comp.val : Comp → Option V
 
 /-- "stmt.target is in the current label set" – the empty target belongs to the label set of every
     iteration statement (§12.12) -/
+def defaultIdx : FCases → Nat → Option Nat
+  | .nil, _ => none
+  | .dflt _ _, i => some i
+  | .case _ _ r, i => defaultIdx r (i+1)
+
+def dropCases : FCases → Nat → FCases
+  | cs, 0 => cs
+  | .nil, _ => .nil
+  | .case _ _ r, i+1 => dropCases r i
+  | .dflt _ r, i+1 => dropCases r i
+
 def inLs (l : Option String) (ls : List String) : Bool :=
   match l with
   | none => true
@@ -931,6 +942,7 @@ def evalE : Nat → FE → Ctx → St → Res V
         | .throw t σ2 => .throw t σ2
         | .fuel => .fuel
       | r => r
+    | .fcc k => .ok (.str (String.singleton (Char.ofNat k))) σ
     | .fnCtor f =>
       -- §15.3.2.1 step 11: the new function's [[Scope]] is the GLOBAL environment, whatever the caller's is
       let (fv, σ1) := mkFunc σ f 0
@@ -1272,6 +1284,23 @@ def evalS : Nat → FS → Ctx → List String → St → Res Comp
       | .throw t' σ1 => .throw t' σ1
       | .fuel => .fuel
     | .whileS ce b => evalWhile n ce b c ls σ none
+    | .switchS d cs =>
+      -- §12.11: the discriminant's value; the first clause (source order, the default clause left out) whose
+      -- expression is === to it, else the default clause; the statement lists from there on
+      match evalE n d c σ with
+      | .ok dv σ1 =>
+        (match selectCase n dv cs 0 c σ1 with
+         | .ok found σ2 =>
+           (match (match found with | some i => some i | none => defaultIdx cs 0) with
+            | none => .ok (.normal none) σ2
+            | some t =>
+              match runCases n (dropCases cs t) c σ2 none with
+              | .ok (.brk v l) σ3 => if inLs l ls then .ok (.normal v) σ3 else .ok (.brk v l) σ3
+              | r => r)
+         | .throw t σ2 => .throw t σ2
+         | .fuel => .fuel)
+      | .throw t σ1 => .throw t σ1
+      | .fuel => .fuel
     | .throwS e =>
       match evalE n e c σ with
       | .ok v σ1 => .throw v σ1
@@ -1370,6 +1399,43 @@ def evalS : Nat → FS → Ctx → List String → St → Res Comp
       | r => r
     | .brk l => .ok (.brk none l) σ
     | .cont l => .ok (.cont none l) σ
+
+/-- §12.11 step: evaluate the case expressions in order until one is === to the discriminant -/
+def selectCase : Nat → V → FCases → Nat → Ctx → St → Res (Option Nat)
+  | 0, _, _, _, _, _ => .fuel
+  | _+1, _, .nil, _, _, σ => .ok none σ
+  | n+1, dv, .dflt _ r, i, c, σ => selectCase n dv r (i+1) c σ
+  | n+1, dv, .case e _ r, i, c, σ =>
+    match evalE n e c σ with
+    | .ok v σ1 => if dv == v && dv != .nan then .ok (some i) σ1 else selectCase n dv r (i+1) c σ1
+    | .throw t σ1 => .throw t σ1
+    | .fuel => .fuel
+
+/-- §12.11: the statement lists of the clauses, one after the other; an abrupt completion R ends it as
+    (R.type, V, R.target) -/
+def runCases : Nat → FCases → Ctx → St → Option V → Res Comp
+  | 0, _, _, _, _ => .fuel
+  | _+1, .nil, _, σ, last => .ok (.normal last) σ
+  | n+1, .case _ b r, c, σ, last =>
+    match evalSs n b c σ with
+    | .ok comp σ1 =>
+      let last' := orV comp.val last
+      (match comp with
+       | .normal _ => runCases n r c σ1 last'
+       | .brk _ l => .ok (.brk last' l) σ1
+       | .cont _ l => .ok (.cont last' l) σ1
+       | .ret v => .ok (.ret v) σ1)
+    | r => r
+  | n+1, .dflt b r, c, σ, last =>
+    match evalSs n b c σ with
+    | .ok comp σ1 =>
+      let last' := orV comp.val last
+      (match comp with
+       | .normal _ => runCases n r c σ1 last'
+       | .brk _ l => .ok (.brk last' l) σ1
+       | .cont _ l => .ok (.cont last' l) σ1
+       | .ret v => .ok (.ret v) σ1)
+    | r => r
 
 /-- §12.6.2 -/
 def evalWhile : Nat → FE → FSs → Ctx → List String → St → Option V → Res Comp
